@@ -60,17 +60,54 @@ int main(int argc, char** argv) {
 		else if (!jit) { if (th || !(fs.flags & RANDOMX_FLAG_HARD_AES)) jobs.push_back({ fs.flags | RANDOMX_FLAG_SECURE, true, std::string(fs.name) + "+SECURE" }); }
 		else if (th || !(fs.flags & RANDOMX_FLAG_HARD_AES)) jobs.push_back({ fs.flags, false, std::string(fs.name) + " (non-secure, cache-owned buffers only)" });
 	}
+	// LARGE_PAGES variants of the secure JIT classes (separate VM classes in randomx_create_vm); the harness answers MAP_HUGETLB
+	{ std::vector<Job> lp; for (auto& j : jobs) if (j.secure_family && (j.flags & RANDOMX_FLAG_JIT)) lp.push_back({ j.flags | RANDOMX_FLAG_LARGE_PAGES, true, j.name + "+LARGE_PAGES" }); for (auto& j : lp) jobs.push_back(j); }
+	// creation attempts: every flag set with SECURE (and LARGE_PAGES, with and without huge pages available); a request made by a call that then fails counts as well
+	struct Attempt { int flags; bool huge; };
+	std::vector<Attempt> attempts;
+	for (auto& fs : rxh::vm_flagsets()) for (int lp = 0; lp < 2; ++lp) for (int huge = 0; huge <= lp; ++huge) attempts.push_back({ fs.flags | RANDOMX_FLAG_SECURE | (lp ? RANDOMX_FLAG_LARGE_PAGES : 0), (bool)huge });
+	auto attempt_case = [&](const Attempt& at) -> std::string {   // on a fresh monitor state
+		env::State& E = env::S(); E.hugepages = true; g_secure_family = true; std::string d;
+		randomx_cache* c; randomx_dataset* ds = nullptr; randomx_vm* vm;
+		{ env::Track t; env::S().cur_owner = 10; c = randomx_alloc_cache((randomx_flags)(RANDOMX_FLAG_JIT | (at.flags & RANDOMX_FLAG_LARGE_PAGES))); if (c) randomx_init_cache(c, "test key 000", 12); }
+		if (!c) return "randomx_alloc_cache failed";
+		if (E.wx_cache_events) return std::string("W^X violated on a cache-owned code buffer: ") + E.wx_what;
+		if (at.flags & RANDOMX_FLAG_FULL_MEM) { env::Track t; env::S().cur_owner = 30; ds = randomx_alloc_dataset((randomx_flags)(at.flags & RANDOMX_FLAG_LARGE_PAGES)); if (ds) randomx_init_dataset(ds, c, 0, randomx_dataset_item_count()); }
+		E.hugepages = at.huge;
+		{ env::Track t; env::S().cur_owner = 20; vm = randomx_create_vm((randomx_flags)at.flags, ds ? nullptr : c, ds); }
+		if (!vm && !((at.flags & RANDOMX_FLAG_LARGE_PAGES) && !at.huge)) d = "randomx_create_vm returned NULL";
+		if (d.empty() && E.wx_events) d = std::string("W^X violated while creating a secure VM") + (vm ? "" : " (the call then returned NULL)") + ": " + E.wx_what;
+		if (d.empty() && vm) { uint8_t h[32]; { env::Track t; env::S().cur_owner = 20; randomx_calculate_hash(vm, "x", 1, h); } if (E.wx_events) d = std::string("W^X violated while hashing on a secure VM: ") + E.wx_what; }
+		if (d.empty()) d = maps_check(false);
+		{ env::Track t; if (vm) randomx_destroy_vm(vm); if (ds) randomx_release_dataset(ds); randomx_release_cache(c); }
+		if (d.empty() && (E.wx_events || E.wx_cache_events)) d = std::string("W^X violated during destruction: ") + E.wx_what;
+		return d;
+	};
 	auto make_alpha = [&](int flags) { Alphabet A; A.vm_flags = flags; A.keys = { "test key 000", "" }; A.inputs = { "This is a test" }; A.cache_jit_variants = true; A.with_batch = th; return A; };
 
 	if (!args.replay.empty()) {
-		vf::Json r = vf::Json::load(args.replay); Alphabet A = make_alpha((int)r.at("vm_flags").num()); g_secure_family = r.at("secure_family").b;
-		env::init(); W.A = &A; compute_expected(W); maps_check(true);
+		vf::Json r = vf::Json::load(args.replay);
+		if (r.has("kind") && r.at("kind").s == "attempt") { env::init(); maps_check(true); std::string d = attempt_case({ (int)r.at("vm_flags").num(), r.at("hugepages").b }); printf("replay: %s\n", d.empty() ? "no W+X page" : d.c_str()); return d.empty() ? 0 : 1; }
+		Alphabet A = make_alpha((int)r.at("vm_flags").num()); g_secure_family = r.at("secure_family").b;
+		env::init(); env::S().hugepages = true; W.A = &A; compute_expected(W); maps_check(true);
 		for (auto& o : hist_from(r.at("history_raw"))) { if (!W.enabled(o)) return 2; if (!W.apply(o)) { printf("replay: %s\n", W.problem.c_str()); return 1; } std::string sc = wx_check(W); if (!sc.empty()) { printf("replay: after %s: %s\n", op_str(o).c_str(), sc.c_str()); return 1; } }
 		printf("replay: no W+X page\n"); return 0;
 	}
 
-	vf::Result total = vf::run_shards(args, (int)jobs.size() + 1, [&](int shard) {
+	vf::Result total = vf::run_shards(args, (int)jobs.size() + 2, [&](int shard) {
 		vf::Result R;
+		if (shard == (int)jobs.size() + 1) {   // creation attempts, each in a forked child (fresh monitor state)
+			for (auto& at : attempts) {
+				vf::Json rp = vf::Json::obj().set("kind", "attempt").set("vm_flags", at.flags).set("hugepages", at.huge);
+				int pfd[2]; if (pipe(pfd)) continue; fflush(stdout); pid_t pid = fork();
+				if (pid == 0) { env::init(); maps_check(true); std::string d = attempt_case(at); if (write(pfd[1], d.data(), d.size())) {} _exit(0); }
+				close(pfd[1]); std::string d; char buf[512]; ssize_t k; while ((k = read(pfd[0], buf, sizeof buf)) > 0) d.append(buf, (size_t)k); close(pfd[0]); int st; waitpid(pid, &st, 0);
+				if (!(WIFEXITED(st) && WEXITSTATUS(st) == 0)) d = "abnormal termination of the creation attempt";
+				R.n["creation_attempts"]++;
+				if (!d.empty() && R.viol.size() < 4) { vf::Violation v; v.key = "c16:attempt"; char t[64]; snprintf(t, sizeof t, "flags 0x%x hugepages=%s: ", at.flags, at.huge ? "yes" : "no"); v.what = std::string("create_vm ") + t + d; v.replay = rp; R.viol.push_back(v); }
+			}
+			return R;
+		}
 		if (shard == (int)jobs.size()) {   // positive control: the monitor must see RWX for a non-secure JIT VM, and code must have been executable (hash correct)
 			Alphabet A = make_alpha(RANDOMX_FLAG_JIT); env::init(); W.A = &A; compute_expected(W); g_secure_family = false;
 			for (Op o : { Op{ ALLOC_CACHE, 0, 0 }, Op{ INIT_CACHE, 0, 0 }, Op{ CREATE_VM, 0, 0 }, Op{ HASH, 0, 0 } }) if (!W.apply(o)) { vf::Violation v; v.key = "c16:control"; v.what = "control history failed: " + W.problem; v.replay = vf::Json::obj(); R.viol.push_back(v); return R; }
@@ -79,7 +116,7 @@ int main(int argc, char** argv) {
 			return R;
 		}
 		const Job& j = jobs[shard]; Alphabet A = make_alpha(j.flags); g_secure_family = j.secure_family;
-		env::init(); explore_init(); W.A = &A; compute_expected(W); OPS = W.alphabet_ops(); state_check = wx_check; dedup = true;
+		env::init(); env::S().hugepages = true; explore_init(); W.A = &A; compute_expected(W); OPS = W.alphabet_ops(); state_check = wx_check; dedup = true;
 		maps_check(true);
 		// fixed setup (monitored like everything else): JIT cache, key, dataset for fast sets, the VM
 		std::vector<Op> setup = { { ALLOC_CACHE, 0, 1 }, { INIT_CACHE, 0, 0 } }; if (A.full()) { setup.push_back({ ALLOC_DS, 0, 0 }); setup.push_back({ INIT_DS, 0, 0 }); } setup.push_back({ CREATE_VM, 0, 0 });
@@ -99,7 +136,7 @@ int main(int argc, char** argv) {
 	vf::Evidence ev; ev.level = "model_checking";
 	ev.coverage.set("states", (unsigned long long)total.n["states"]).set("transitions", (unsigned long long)total.n["transitions"]).set("traces_validated_against_impl", (unsigned long long)total.n["transitions"])
 		.set("evaluations", (unsigned long long)total.n["transitions"]).set("distinct_nontrivial", (unsigned long long)total.n["states"]).set("depth_bound", depth).set("exhaustive", !total.incomplete)
-		.set("rule", std::string("profile ") + RX_PROFILE + ": histories of alloc/init/re-key/release cache (default and JIT, two caches), create/destroy VM, vm_set_cache, dataset ops, hash" + (th ? ", first/next/last" : "") + ", v1<->v2 up to the depth bound, per VM flag set: secure family (SECURE JIT sets and interpreter sets with the SECURE bit) - no protection request carries WRITE and EXEC together on any library mapping; non-secure JIT family - none on cache-owned mappings; after every call /proc/self/maps must agree with the tracked protections and show no new w+x region; positive control: a non-secure JIT VM is seen as RWX by the monitor and hashes stay correct (pages were executable when needed)");
+		.set("rule", std::string("profile ") + RX_PROFILE + ": histories of alloc/init/re-key/release cache (default and JIT, two caches), create/destroy VM, vm_set_cache, dataset ops, hash" + (th ? ", first/next/last" : "") + ", v1<->v2 up to the depth bound, per VM flag set: secure family (SECURE JIT sets and interpreter sets with the SECURE bit) - no protection request carries WRITE and EXEC together on any library mapping; non-secure JIT family - none on cache-owned mappings; after every call /proc/self/maps must agree with the tracked protections and show no new w+x region; the secure JIT sets also with LARGE_PAGES (harness answers MAP_HUGETLB); creation attempts: every flag set with SECURE, with LARGE_PAGES where huge pages are available and where they are not (the call fails: requests made before the failure count); positive control: a non-secure JIT VM is seen as RWX by the monitor and hashes stay correct (pages were executable when needed)");
 	ev.assumptions = { "Linux/x86-64 only; the macOS pthread_jit_write_protect_np path is not compiled here", "protection requests reach the kernel only through libc's mmap/mprotect (validated against /proc/self/maps after every call)" };
 	return vf::finish(args, total, ev, true, true);
 }
